@@ -2,15 +2,17 @@
 # Run once after a fresh restore, offline: build the Lean project (models, theorems, driver), the
 # translator and the Go harness (warming the Go build cache). Everything comes from files on disk.
 set -e
-cd /verif
+cd "$(dirname "$0")"
+V=$(pwd)
 export GOFLAGS=-mod=mod GOPROXY=off GOSUMDB=off GOTOOLCHAIN=local
 mkdir -p build evidence replays
-(cd extract && go build -o /verif/build/extract .)
-/verif/build/extract /repo /verif/lean/FpVerif/Gen
+(cd extract && go build -o "$V/build/extract" .)
+"$V/build/extract" /repo "$V/lean/FpVerif/Gen"
 (cd lean && lake build 2>&1 | tail -5)
 python3 - <<'PY'
 import sys
-sys.path.insert(0, '/verif/check')
+import os
+sys.path.insert(0, os.path.join(os.getcwd(), 'check'))
 import lib
 ok, out, _ = lib.build_harness()
 print('harness build:', 'ok' if ok else out[-2000:])
